@@ -10,14 +10,26 @@ with vcheck.Lock():
     bad = vcheck.forbidden_scan()
     if bad:
         print("forbidden tokens:\n" + "\n".join(bad)); sys.exit(1)
-    ok, out = vcheck.coq_make([])
+    import json
+    ready = set(json.load(open(os.path.join(V, "lib", "ready.json"))))
+    vcheck.coq_make(["-k"])          # everything that builds; work in progress must not block the claimed checks
+    targets = []
+    for pid, c in registry.CHECKS.items():
+        if pid in ready:
+            targets += c.get("props_target", ["props/%s.vo" % pid])
+    ok, out = vcheck.coq_make(targets)
     if not ok:
         print(out[-4000:]); sys.exit(1)
-    for e in sorted({c["engine"] for c in registry.CHECKS.values() if c.get("engine")}):
+    for e in sorted({c["engine"] for pid, c in registry.CHECKS.items() if c.get("engine") and pid in ready}):
         ok, out = vcheck.build_model(e)
         if not ok:
             print(out[-4000:]); sys.exit(1)
     ok, out = vcheck.build_go("gmh", "./cmd/gmh", tags="verif")
     if not ok:
         print(out[-4000:]); sys.exit(1)
+    for pid, c in registry.CHECKS.items():
+        if pid in ready and c.get("go_binary", "gmh") != "gmh":
+            ok, out = vcheck.build_go(c["go_binary"], c.get("go_pkg", "./cmd/gmh"), tags="verif", race=c.get("race", False))
+            if not ok:
+                print(out[-4000:]); sys.exit(1)
 print("setup ok")
